@@ -389,9 +389,14 @@ pub fn run_check_with_context(opts: &CheckOptions<'_>) -> crate::Result<i32> {
     let exit_code =
         determine_exit_code(&results, args.warn_only, warnings_as_errors, ratchet_failed);
 
-    // 11. Auto-snapshot on successful check if enabled
+    // 11. Auto-snapshot on successful check if enabled.
+    // Only a full scan yields whole-project totals: an explicit file list, --diff or
+    // --staged restricts the processed set, and recording those partial totals would
+    // show up as a bogus drop in the trend.
+    let whole_project_scanned = args.files.is_empty() && args.diff.is_none() && !args.staged;
     if exit_code == EXIT_SUCCESS
         && auto_snapshot_enabled
+        && whole_project_scanned
         && let Some(ref stats) = project_stats
     {
         perform_auto_snapshot(stats, config, project_root, cli.quiet, cli.verbose);
